@@ -139,5 +139,17 @@ CHECKS["C20"] = {
     "note": "Trusted base: the simulated redis server / pottery containers (cannot be cross-checked against the real libraries offline) and operation-granularity placement of the invalidation handler (the property's quantifier).",
     "technique": "explicit-state model checking (BFS over operation sequences with state de-duplication, reference-model oracle)",
 }
+CHECKS["C19"] = {
+    "engine": "explorer+enumerator",
+    "text": "All interleavings (closed) of corpus executions started through the real StartExecution on 1, 2 and 3 engine instances sharing one simulated broker (and the simulated Redis store), classic and quorum queue "
+            "names: every assignment of start events to competing instances is a branch; M-route checks on every delivery and every publish that start events travel on the shared queue, every later event "
+            "(transition, branch, retry, synchronous child launch, callback) reaches the instance that consumed the start through its own exclusive queue, RPC requests carry that instance's reply queue, the task "
+            "event's id as correlation id and the mandatory flag, replies return to the requester; a second instance with the same id is refused. Exhaustive enumeration of the documented address strings (declared "
+            "queues / exchanges / bindings / subscriptions must equal what the string describes), of all message field combinations and expiration values (None, numeric, numeric string, negative, non-numeric, "
+            "infinite, NaN) and of acknowledgement order through the real Producer / Consumer / Message of both transports; the canonical run of 12 engine scenarios on the asyncio and on the blocking transport "
+            "must produce identical broker traffic.",
+    "note": SIM + " The blocking transport's engine thread is parked inside the simulated connection (one callback = one atomic step on both transports).",
+    "technique": "explicit-state exploration of the implementation on a multi-instance broker + exhaustive enumeration of addresses / message fields with a differential oracle between the two transports",
+}
 NA = {}
 NOTES = "All checks run the real code of /repo's working tree (imported by path) over /verif/sim; see DESIGN.md."
